@@ -3,6 +3,8 @@ matcher (symbolic table path -> key | no match) over a small universe of concret
 
 from __future__ import annotations
 
+import stepup.core.nglob  # noqa: F401  (imported before CrossHair starts tracing)
+
 U = ["p0", "p1", "p2"]
 
 
